@@ -522,6 +522,14 @@ def trigB (inp : Input) : Bool :=
     | none => true
     | some l => (trigOf inp (inp.creatorOf l)).all (fun d => p.2.deps.contains d)
 
+/-- `RxWF`: a task of the initial table that belongs to a regex group (`loader.regex_groups.get(name)`) carries a
+    loader and has the group's command-line word among its file_deps (`_filter_tasks` builds it that way) -/
+def rxB (inp : Input) : Bool :=
+  inp.tasks0.all fun p =>
+    match p.2.rx with
+    | none => true
+    | some g => p.2.loader.isSome && p.2.fileDep.contains (inp.gtarget g)
+
 /-! ### a default schedule (examples, `simulate`): the main thread runs whenever it can, otherwise the oldest running
     task finishes; sets are iterated in their stored order -/
 
